@@ -48,10 +48,96 @@ def r1_comment_coverage(w):
                 r.bad(cons, '%s|%s|%s|%s' % (last(fn), parent, last(loop[0]), g.kind),
                       'a %s child of a %s node is dropped by %s (loop in %s) on %d of %d evaluated paths: the comment is lost (last branch assumptions: %s)'
                       % (g.kind, parent, last(fn), last(loop[0]), len(bad), len(g.paths), [(a[0].rsplit('::', 1)[-1], a[4]) for a in bad[0].assumed[-3:] if len(a) > 4]))
+    # children may be removed only where the per-kind rules can see it: no element-dropping adaptor in front of a loop over syntax nodes
+    for ok, cons, key, why, loc in e2.filter_obligations(w):
+        (r.ok(cons, why) if ok else r.bad(cons, key, why, loc))
     return r
 
 
 NO_COMMENT_GUARD = re.compile(r'has_comment_children$|AttrStore::has_comment$|attr::\{impl#\d+\}::has_comment$|is_unformattable$|is_formatable(_table)?$')
+
+
+# guards that read the per-node attribute computed by the attribute pass instead of scanning the node's children (seed C06/4B)
+ATTR_GUARD = re.compile(r'AttrStore::has_comment$|attr::\{impl#\d+\}::has_comment$|is_unformattable$')
+_ATTR_SOUND = {}
+
+
+def attr_guard_sound(w):
+    """(sound?, why): may `the has-comment attribute of this node is unset` be read as `no child of this node is a comment`?  Only if the pass
+    that sets the attribute looks at the children of *every* node a converter can be handed.  The pass is found by role (the function of the
+    attribute module that loops over children and stores the has-comment flag, directly or through a setter); it is evaluated on one iteration
+    per inner child kind with unknown loop state: a path that neither is a comment nor descends into the child leaves that child's subtree
+    without attributes - today the child that follows an `@typstyle off` directive (C07.R3 *requires* that skip), whose descendants are still
+    formatted when the marked node's own converter does not consult the mark (named / keyed / spread arguments)."""
+    key = w.facts_dir
+    if key in _ATTR_SOUND:
+        return _ATTR_SOUND[key]
+    from sites import evaluate_sequence
+    from prov import place_key
+    from tyutil import name_projection
+    core = w.core
+
+    def stores(b):
+        for blk in b.blocks:
+            for st in blk['stmts']:
+                if st['s'] == 'assign' and st['p']['proj']:
+                    l, pr = place_key(st['p'])
+                    steps, _ = name_projection(w, b.locals[l]['ty'], pr)
+                    if steps and steps[-1].endswith('Attributes.has_comment'):
+                        return True
+        return False
+    attr_fns = [b for b in w.fn_bodies(core) if b.def_kind != 'Closure' and b.short.startswith('attr::')]
+    loops = lambda b: any((callee_path(t) or '').endswith('Iterator::next') for _, t in b.calls())
+    setters = {b.id for b in attr_fns if stores(b) and not loops(b)}
+    passes = [b for b in attr_fns if loops(b) and (stores(b) or {resolved_id(t) for _, t in b.calls()} & setters)]
+    if len(passes) != 1:
+        res = (False, 'the pass that computes the has-comment attribute was not found (%s)' % [last(p.short) for p in passes])
+        _ATTR_SOUND[key] = res
+        return res
+    b = passes[0]
+    node_p = [i for i in range(1, b.arg_count + 1) if b.locals[i]['ty']['s'].startswith('&typst_syntax::SyntaxNode')]
+    if not node_p:
+        res = (False, 'node parameter of %s not found' % b.short)
+        _ATTR_SOUND[key] = res
+        return res
+
+    def hook(ip, m, f, t, args):
+        if resolved_id(t) == b.id and len(m.frames) >= 1:
+            n = None
+            for a in args:
+                a = ip.load(a) if isinstance(a, kf.Ref) else a
+                if isinstance(a, kf.Node):
+                    n = a
+            m.events.append(('descend', n))
+            return kf.NOTHING_VAL
+        return None
+    skipped = []
+    for K in ('FuncCall', 'Named', 'Args', 'Parenthesized'):
+        res = evaluate_sequence(w, b, node_p[0], 'Code', [kf.Node('child', K)], hooks={'descend': hook}, no_inline=lambda tb: tb.id != b.id)
+        if res is None:
+            skipped.append(K + ' (not evaluated)')
+            continue
+        for item in res:
+            steps = item[1]
+            if not any(e[0] == 'descend' for st in steps for e in st):
+                skipped.append(K)
+                break
+    if skipped:
+        res = (False, '%s does not look at the children of every node: on some path a %s child is passed over without descending (the node after an `@typstyle off` '
+                      'directive), so the attribute is unset for every node below it whether or not it holds comments' % (b.short, '/'.join(skipped)))
+    else:
+        res = (True, '%s descends into every child' % b.short)
+    _ATTR_SOUND[key] = res
+    return res
+
+
+def _guard_name_ok(w, name):
+    """a no-comment guard by name; attribute reads count only if the attribute is complete"""
+    if not NO_COMMENT_GUARD.search(name or ''):
+        return False
+    if ATTR_GUARD.search(name):
+        return attr_guard_sound(w)[0]
+    return True
 
 
 def r2_typed_accessor_bypass(w):
@@ -78,7 +164,7 @@ def r2_typed_accessor_bypass(w):
                 continue          # declines (None / nil)
             if _own_text(wh):
                 continue          # emits the node's own text
-            if any(len(a) > 4 and a[3] and NO_COMMENT_GUARD.search(a[3]) and a[4] in (False,) for a in wh.assumed):
+            if any(len(a) > 4 and a[3] and _guard_name_ok(w, a[3]) and a[4] in (False,) for a in wh.assumed):
                 continue          # on the comment-free edge of a has_comment test
             d = {a[1] for a in wh.atoms if a[0] == 'conv' and isinstance(a[2], kf.Node) and a[2].tag == 'parent'}
             if d:
@@ -166,7 +252,7 @@ def _guarded(w, b, depth=0):
     if inner_calls:
         all_ok = True
         for bi in inner_calls:
-            if not any(NO_COMMENT_GUARD.search(atom) and vals in ({False}, {'None'}) for atom, vals, _ in _call_guards(v, bi)):
+            if not any(_guard_name_ok(w, atom) and vals in ({False}, {'None'}) for atom, vals, _ in _call_guards(v, bi)):
                 all_ok = False
         if all_ok:
             return True, 'guarded inside by a no-comment test'
@@ -176,7 +262,7 @@ def _guarded(w, b, depth=0):
     for (cb, bi, t) in callers:
         cv = BodyView(w, cb)
         gs = _call_guards(cv, bi)
-        if any(NO_COMMENT_GUARD.search(atom) and (vals in ({False}, {'Some'}, {True}) and _polarity_ok(atom, vals)) for atom, vals, _ in gs):
+        if any(_guard_name_ok(w, atom) and (vals in ({False}, {'Some'}, {True}) and _polarity_ok(atom, vals)) for atom, vals, _ in gs):
             continue
         # a wrapper that is itself guarded at all its call sites
         ok, why = _guarded(w, cb, depth + 1) if cb.def_kind != 'Closure' and kf.default_converter_pred(cb) is False and cb.id != b.id else (False, '')
@@ -210,7 +296,7 @@ def _call_guards(v, bi):
             if 'comment' in name:
                 # flag set from has_comment_children?
                 for bi2, t in b.calls():
-                    if NO_COMMENT_GUARD.search(callee_path(t) or '') or NO_COMMENT_GUARD.search((w_short(v, t))):
+                    if _guard_name_ok(v.w, callee_path(t) or '') or _guard_name_ok(v.w, w_short(v, t)):
                         out.append(('flag:%s<-%s' % (name, callee_path(t) or w_short(v, t)), vals, sw))
     return out
 
@@ -356,7 +442,7 @@ def _scan_flags(w, b, v):
         item_dest = t['dest']['l']
         for bi in blocks:
             gt = b.blocks[bi]['term']
-            if gt['t'] != 'call' or not (NO_COMMENT_GUARD.search(callee_path(gt) or '') or NO_COMMENT_GUARD.search(w_short(v, gt))):
+            if gt['t'] != 'call' or not (_guard_name_ok(w, callee_path(gt) or '') or _guard_name_ok(w, w_short(v, gt))):
                 continue
             # applied to the loop item
             subj = v.pv.peel(v.pv.origins_operand(gt['args'][-1] if gt['args'] else None)) if gt['args'] else set()
@@ -491,7 +577,7 @@ def _scan_misses(w, cb, cv, flag, admits):
     def hook(ip, m, f, t, args):
         rp = callee_path(t) or ''
         rs = w_short(cv, t)
-        if NO_COMMENT_GUARD.search(rp) or NO_COMMENT_GUARD.search(rs):
+        if _guard_name_ok(w, rp) or _guard_name_ok(w, rs):
             n = None
             for a in args:
                 a = ip.load(a) if isinstance(a, kf.Ref) else a
